@@ -405,9 +405,52 @@ def check_psd_recovery(seq):
     return msgs, hashes
 
 
+def check_recovery_order(kind, jorder):
+    """load cases processed in ANY order of their case numbers (column j of the per-case tables belongs to case j,
+    whenever it arrives): every permutation of four case numbers; the final container is compared with the order-free
+    reference, column by column"""
+    msgs = []
+    DR = make_dr()
+    results = DR.prepare_results("mission", "event")
+    n = len(jorder)
+    cis = [0, 2, 4, 5][:n]  # the response of case number j
+    try:
+        for j in jorder:
+            R = resp_of(kind, cis[j])
+            case = "case%d" % j
+            if kind == "time":
+                results.time_data_recovery({(1, 1, 1, 1): SimpleNamespace(d=R.copy(), t=T.copy(), h=0.5)}, None, case, DR, n, j)
+            else:
+                results.frf_data_recovery({(1, 1, 1, 1): SimpleNamespace(d=R.copy(), f=T.copy())}, None, case, DR, n, j)
+    except Exception as e:  # noqa
+        return ["cases stored in the order %s raised %r" % (list(jorder), e)]
+    res = results["cat"]
+    ref = ref_recovery(kind, cis)  # reference with the cases in case-number order
+    if list(res.cases) != ["case%d" % i for i in range(n)]:
+        msgs.append("cases stored in the order %s: .cases = %s, column j belongs to case j" % (list(jorder), res.cases))
+    for nm in ("mx", "mn", "mx_x", "mn_x"):
+        if not eqnan(getattr(res, nm), ref[nm]):
+            msgs.append("cases stored in the order %s: per-case table %s is not in case-number order" % (list(jorder), nm))
+    if not eqnan(res.ext, ref["ext"]):
+        msgs.append("cases stored in the order %s: ext %s != envelope %s" % (list(jorder), res.ext.tolist(), ref["ext"].tolist()))
+    store = res.hist if kind == "time" else res.frf
+    for j in range(n):
+        want = resp_of(kind, cis[j])
+        if not np.all((store[j] == want) | (np.isnan(store[j]) & np.isnan(want))):
+            msgs.append("cases stored in the order %s: stored history %d is not the response of case %d" % (list(jorder), j, j))
+    return msgs
+
+
 def shard_recovery(sh):
     res = Result()
     kind, L = sh["kind"], sh["L"]
+    if sh["first"] == 0 and kind in ("time", "frf"):
+        for n in (2, 3, 4):
+            for jorder in itertools.permutations(range(n)):
+                res.ev("recovery-%s/case-order/n%d" % (kind, n))
+                res.traces += 1
+                for m in check_recovery_order(kind, jorder):
+                    res.viol({"part": "recovery-order", "kind": kind, "jorder": list(jorder)}, "%s_data_recovery: %s" % (kind, m), kind="rec-order-" + m.split(":")[-1][:25])
     seen = set()
     for n in range(1, L + 1):
         for seq in itertools.product(range(len(RESP)), repeat=n):
@@ -682,6 +725,51 @@ def check_form_rows(ids, with_x, doappend):
         if list(c.drminfo.labels) != labels or not eqnan(c.ext, ext) or list(c.maxcase) != ml:
             msgs.append("form_extreme modified event %s while expanding its rows" % k)
     return msgs
+
+
+def check_copycat():
+    """DR_Def.copycat with a LIST of categories whose uncertainty factors differ and a uf_reds argument holding None
+    entries (None = keep that category's own factor): every copy gets ITS OWN source's factors where None is given"""
+    from pyyeti import cla
+
+    msgs = []
+    ufs = {"A": (1.0, 1.0, 1.25, 1.0), "B": (1.1, 1.3, 1.5, 0.9), "C": (1.0, 2.0, 1.0, 1.2)}
+    for order in itertools.permutations("ABC"):
+        for ufarg in ((0, None, None, None), (None, 1.0, None, 2.0), (None, None, None, None), (0, 1, 1, 1)):
+            drdefs = cla.DR_Def(dict(se=0, uf_reds=(1, 1, 1, 1)))
+            for nm_ in "ABC":
+                @cla.DR_Def.addcat
+                def _():
+                    name = nm_
+                    desc = "cat " + nm_
+                    labels = ["r1", "r2"]
+                    drms = {"drm" + nm_: np.eye(2)}
+                    drfunc = "sol.d"
+                    uf_reds = ufs[nm_]
+                    drdefs.add(**locals())
+            try:
+                drdefs.copycat(list(order), "_x", uf_reds=ufarg)
+            except Exception as e:  # noqa
+                msgs.append("copycat(%s, uf_reds=%s) raised %r" % (list(order), ufarg, e))
+                continue
+            for nm_ in order:
+                want = tuple(u if a is None else a for u, a in zip(ufs[nm_], ufarg))
+                got = tuple(drdefs[nm_ + "_x"].uf_reds)
+                if got != want:
+                    msgs.append("copycat(%s, uf_reds=%s): category %s_x has uf_reds %s, expected %s (None keeps the source category's own factor)" % (list(order), ufarg, nm_, got, want))
+                if tuple(drdefs[nm_].uf_reds) != ufs[nm_]:
+                    msgs.append("copycat modified the source category %s" % nm_)
+    return msgs
+
+
+def shard_copycat(sh):
+    res = Result()
+    for m in check_copycat():
+        res.viol({"part": "copycat"}, m, kind="copycat-" + m.split(":")[-1][:25])
+    res.ev("copycat", n=0)
+    res.traces += 24
+    res.sample({"part": "copycat"})
+    return res
 
 
 def shard_formrows(sh):
@@ -983,12 +1071,13 @@ def shards(tier, seed):
     out.append(dict(part="applyuf", L=2 if q else 3))
     out.append(dict(part="formsrs"))
     out.append(dict(part="formrows"))
+    out.append(dict(part="copycat"))
     r = seed % len(out)
     return out[r:] + out[:r]
 
 
 def run_shard(sh):
-    return {"extrema": shard_extrema, "recovery": shard_recovery, "form": shard_form, "applyuf": shard_applyuf, "formsrs": shard_formsrs, "formrows": shard_formrows}[sh["part"]](sh)
+    return {"extrema": shard_extrema, "recovery": shard_recovery, "form": shard_form, "applyuf": shard_applyuf, "formsrs": shard_formsrs, "formrows": shard_formrows, "copycat": shard_copycat}[sh["part"]](sh)
 
 
 def replay(case):
@@ -999,6 +1088,10 @@ def replay(case):
         if case["kind"] == "psd":
             return check_psd_recovery(tuple(case["seq"]))[0]
         return check_recovery(case["kind"], tuple(case["seq"]))[0]
+    if p == "recovery-order":
+        return check_recovery_order(case["kind"], tuple(case["jorder"]))
+    if p == "copycat":
+        return check_copycat()
     if p == "formrows":
         return check_form_rows(tuple(case["ids"]), case["with_x"], case["doappend"])
     if p == "form":
